@@ -151,6 +151,8 @@ class Parser:
             return ("T", [args[0], args[0]])
         if name == "Vec" and args == [W]:
             return A
+        if name == "Vec" and args == [("N", "BitVector")]:
+            return ("N", "BvArray")
         return ("N", name)
 
     # ---- patterns
@@ -245,10 +247,12 @@ class Parser:
                 b = self.block()
                 return ("whilelet", var_pat, ("mcall", it[1], "next", []), b), False
             if it[0] == "mcall" and it[2] == "iter" and not it[3] and not rev:
-                if var is None:
-                    raise Unsupported("`for` over an array with a tuple pattern")
                 b = self.block()
-                return ("for", var, ("int", 0, None), ("arrlen", it[1]), False, b, it[1]), False
+                return ("for", var if var is not None else var_pat, ("int", 0, None), ("arrlen", it[1]), False, b, it[1]), False
+            if it[0] == "mcall" and it[2] == "iter_mut" and not it[3] and not rev and var is not None:
+                # `for x in arr.iter_mut() { … *x = e … }`: the loop over the indices; `*x = e` writes element `i`
+                b = self.block()
+                return ("for", var, ("int", 0, None), ("arrlen", it[1]), False, b, ("itermut", it[1])), False
             if it[0] != "range":
                 raise Unsupported("`for` over anything but a range `a..b`, `(a..b).rev()`, `array.iter()` or `x.by_ref()`")
             if var is None:
@@ -706,6 +710,9 @@ class Emitter:
             return k + "[]", extra + [e[2]]
         if e[0] == "paren":
             return self.callee_key(e[1])
+        if e[0] == "mcall" and not e[3]:
+            k, extra = self.callee_key(e[1])                      # `x.iter().cloned().max()`: `x.iter.cloned.max`
+            return k + "." + e[2], extra
         raise Unsupported("call receiver %r" % (e[0],))
 
     def expr(self, e, pre, want=None):
@@ -1038,7 +1045,34 @@ class Emitter:
             extra = []
         if try_key and (try_key in self.cfg.get("calls", {}) or try_key in self.calls):
             return self.call(try_key, args, pre, want, extra_exprs=extra)
+        if (name == "map" and len(args) == 1 and args[0][0] == "closure" and len(args[0][1]) == 1
+                and recv[0] == "mcall" and recv[2] == "iter" and not recv[3]):
+            # `pairs.iter().map(|(a, b)| body)`: the mapped items as a list (`mapM`: the body may fault).  The Rust iterator is
+            # lazy; the consumer sees the items in the same order, and a faulting body faults the whole.
+            arrv, arrt = self.expr(recv[1], pre)
+            if arrt != ("N", "SamplePairs"):
+                raise Unsupported("`.iter().map(..)` over %r" % (arrt,))
+            cl = args[0]
+            saved = dict(self.env)
+            binds = []
+            self.bind_pat(cl[1][0], "x_", ("T", [U, U]), binds, "")
+            p2 = []
+            b, tb = self.expr(cl[2], p2, None)
+            self.env = saved
+            if tb != U:
+                raise Unsupported("`.iter().map(..)` producing %r" % (tb,))
+            lines = []
+            self.flush(p2, lines, "")
+            if any(not isinstance(l, str) for l in lines):
+                raise Unsupported("`?` inside a closure")
+            body = "; ".join([l.strip() for l in binds] + [l.strip() for l in lines])
+            t = self.fresh()
+            pre.append("let %s ← (%s).toList.mapM (fun x_ => do %s; pure %s)" % (t, arrv, body, b))
+            return t, ("N", "ListIter")
         v, ty = self.expr(recv, pre)
+        if ty and ty[0] == "O" and name == "unwrap_or" and len(args) == 1:
+            a, _ = self.expr(args[0], pre, ty[1])
+            return "((%s).getD %s)" % (v, a), ty[1]
         if name == "as_ref" and not args and ty and ty[0] == "O":
             return v, ty
         if name == "clone" and not args:
@@ -1076,6 +1110,19 @@ class Emitter:
             return t, ty[1]
         if ty == A and name == "len":
             return "%s.size" % v, U
+        if ty == A and name == "push" and len(args) == 1:
+            x, _ = self.expr(args[0], pre, W)
+            self.assign_place(recv, "%s.push %s" % (v, x), pre)
+            return "()", UNIT
+        if ty == A and name == "clear" and not args:
+            self.assign_place(recv, "(#[] : Array Word)", pre)
+            return "()", UNIT
+        if ty == A and name == "extend" and len(args) == 1:
+            x, xt = self.expr(args[0], pre, A)
+            if xt != A:
+                raise Unsupported("Vec::extend with %r" % (xt,))
+            self.assign_place(recv, "(%s ++ %s)" % (v, x), pre)
+            return "()", UNIT
         # typed receiver: key by type name
         if ty and ty[0] == "N":
             key = "<%s>.%s" % (ty[1], name)
@@ -1159,11 +1206,18 @@ class Emitter:
             pre.append("let %s ← %s" % (t, code))
             self.assign_place(args[ent["mutarg"]], t, pre)
             return "()", UNIT
+        rty_ = ent["ret"]
+        if rty_ == "HINT":
+            # the result type is the one the context asks for (`let v: Vec<u64> = Vec::new()`)
+            if want is None:
+                raise Unsupported("call to %s needs a type annotation" % key)
+            rty_ = want
+            code = code.replace("{ty}", lean_ty(want, self.structs))
         if ent.get("monadic", True):
             t = self.fresh()
             pre.append("let %s ← %s" % (t, code))
-            return t, ent["ret"]
-        return "(%s)" % code, ent["ret"]
+            return t, rty_
+        return "(%s)" % code, rty_
 
     def assign_place(self, place, val, pre):
         while place[0] in ("ref", "paren"):
@@ -1174,6 +1228,11 @@ class Emitter:
         if place[0] == "path" and len(place[1]) == 1 and place[1][0] in self.env:
             nm, ty = self.env[place[1][0]]
             pre.append("let %s := %s" % (nm, val))
+            if place[1][0] in getattr(self, "itermut", {}):
+                # the variable is `&mut arr[i]` of an `iter_mut()` loop: the element changes with it
+                arrplace, cnt = self.itermut[place[1][0]]
+                arrv, _ = self.expr(arrplace, [], None)
+                self.assign_place(arrplace, "%s.setIfInBounds %s %s" % (arrv, cnt, nm), pre)
             return
         if place[0] == "field" and not place[2].isdigit() and place[1] != ("path", ["self"]):
             # a field of a local struct value: rebuild the struct
@@ -1202,6 +1261,14 @@ class Emitter:
                 self.assigned(s[2], acc)
             elif s[0] == "for":
                 self.assigned(s[5], acc)
+                if s[6] is not None and s[6][0] == "itermut":
+                    p = s[6][1]
+                    while p[0] in ("index", "paren") or (p[0] == "field" and p[1] != ("path", ["self"])):
+                        p = p[1]
+                    if p[0] == "field" and p[1] == ("path", ["self"]):
+                        acc.add("self_" + p[2])
+                    elif p[0] == "path":
+                        acc.add(self.env[p[1][0]][0] if p[1][0] in self.env else p[1][0])
             elif s[0] == "whilelet":
                 self.assigned(s[3], acc)
                 self.assigned_expr(s[2], acc)
@@ -1239,6 +1306,11 @@ class Emitter:
                 except Exception:
                     lt = None
                 self.n, self.nmatch = saved_n                            # a probe: it emits nothing
+                if lt == A and e[2] in ("push", "clear", "extend"):
+                    if root[0] == "path" and len(root[1]) == 1 and root[1][0] in self.env:
+                        acc.add(self.env[root[1][0]][0])
+                    elif root[0] == "field" and root[1] == ("path", ["self"]):
+                        acc.add("self_" + root[2])
                 if isinstance(lt, tuple) and lt[0] == "N":
                     tk = "<%s>.%s" % (lt[1], e[2])
                     tent = self.cfg.get("calls", {}).get(tk) or self.calls.get(tk)
@@ -1549,6 +1621,14 @@ class Emitter:
             return
         while place[0] == "paren":
             place = place[1]
+        if place[0] == "deref" and place[1][0] == "path" and len(place[1][1]) == 1 and place[1][1][0] in getattr(self, "itermut", {}):
+            # `*x = e` inside `for x in arr.iter_mut()`: element `i` of the array (and `x` itself) take the new value
+            arrplace, cnt = self.itermut[place[1][1][0]]
+            if op != "=":
+                raise Unsupported("compound assignment through an `iter_mut()` reference")
+            r, _ = self.expr(rhs, pre, W)
+            self.assign_place(place[1], r, pre)
+            return
         if place[0] == "index":
             arr, aty = self.expr(place[1], [], None)
             if aty != A:
@@ -1794,6 +1874,9 @@ class Emitter:
         """`for x in a..b { body }` / `for x in (a..b).rev() { body }`: `loopM` over a counter and the variables the body
         assigns; the iteration bound is the length of the range plus one"""
         _, var, lo, hi, rev, body, arr = st
+        itermut = None
+        if arr is not None and arr[0] == "itermut":
+            itermut, arr = arr[1], arr[1]
         pre = []
         a, _ = self.expr(lo, pre, U)
         if arr is not None:
@@ -1801,7 +1884,9 @@ class Emitter:
                 arrv, arrt = (self.self_value() if self.selfmut else self.cfg["self"]["var"]), ("N", self.cfg["self"]["rust"])
             else:
                 arrv, arrt = self.expr(arr, pre, None)
-            if arrt == ("N", "IntVector"):
+            if arrt in (("N", "SamplePairs"), ("N", "BvArray")):
+                b = "%s.size" % arrv
+            elif arrt == ("N", "IntVector"):
                 # `for x in v.iter()` over an IntVector: `AccessIter` yields `v.get(i)` for `i` in `0..v.len()`
                 b = "%s.len" % arrv
             elif arrt != A:
@@ -1815,7 +1900,7 @@ class Emitter:
         n = self.nloops
         out.append(ind + "let for_lo%d := %s" % (n, a))
         out.append(ind + "let for_hi%d := %s" % (n, b))
-        vs = sorted(self.in_scope(self.assigned(body, set())))
+        vs = sorted(self.in_scope(self.assigned(("block", [st], None), set())))
         cnt = "for_i%d" % n
         pat = cnt if not vs else "(" + ", ".join([cnt] + vs) + ")"
         rty = self.cfg["_rty"]
@@ -1825,7 +1910,14 @@ class Emitter:
         if not rev:
             nxt = "(" + ", ".join(["%s + 1" % cnt] + vs) + ")" if vs else "(%s + 1)" % cnt
             out.append(ind + "    if (decide (%s < for_hi%d)) then do" % (cnt, n))
-            if arr is not None and arrt == ("N", "IntVector"):
+            if arr is not None and arrt == ("N", "SamplePairs"):
+                if isinstance(var, tuple):
+                    self.bind_pat(var, "(%s.getD %s (0, 0))" % (arrv, cnt), ("T", [U, U]), out, ind + "      ")
+                else:
+                    out.append(ind + "      let %s := %s.getD %s (0, 0)" % (lname(var), arrv, cnt))
+            elif arr is not None and arrt == ("N", "BvArray"):
+                out.append(ind + "      let %s := %s.getD %s default" % (lname(var), arrv, cnt))
+            elif arr is not None and arrt == ("N", "IntVector"):
                 out.append(ind + "      let %s ← gen_IntVector_get m %s %s" % (lname(var), arrv, cnt))
             elif arr is not None:
                 out.append(ind + "      let %s := rd %s %s" % (lname(var), arrv, cnt))      # the element (in range: %s < size)
@@ -1835,16 +1927,26 @@ class Emitter:
             nxt = "(" + ", ".join(["%s - 1" % cnt] + vs) + ")" if vs else "(%s - 1)" % cnt
             out.append(ind + "    if (decide (for_lo%d < %s)) then do" % (n, cnt))
             out.append(ind + "      let %s := %s - 1" % (lname(var), cnt))
-        self.env[var] = (lname(var), W if arr is not None else U)
+        if not isinstance(var, tuple):
+            vty = U
+            if arr is not None:
+                vty = ("T", [U, U]) if arrt == ("N", "SamplePairs") else (("N", "BitVector") if arrt == ("N", "BvArray") else W)
+            self.env[var] = (lname(var), vty)
         self.loop = nxt
+        saved_itermut = getattr(self, "itermut", {})
+        if itermut is not None:
+            if arrt not in (A, ("N", "BvArray")):
+                raise Unsupported("`iter_mut()` over %r" % (arrt,))
+            self.itermut = dict(saved_itermut, **{var: (itermut, cnt)})
         nb = self.norm(body)
         if nb[2] is not None:
             raise Unsupported("loop body ending in a value")
-        self.scoped(vs + [lname(var)], nb[1], None, out, ind + "      ", True)
+        self.scoped(vs + ([lname(q[1]) for q in var[1]] if isinstance(var, tuple) else [lname(var)]), nb[1], None, out, ind + "      ", True)
         out.append(ind + "    else do")
         out.append(ind + "      pure (Ctl.brk %s)) %s" % (pat, ("(" + ", ".join(["for_lo%d" % n if not rev else "for_hi%d" % n] + vs) + ")") if vs
                                                         else ("for_lo%d" % n if not rev else "for_hi%d" % n)))
         self.env, self.loop = saved_env, saved_loop
+        self.itermut = saved_itermut
         has_ret = self.contains_return(body) or self.contains_try(body)
         if not is_fn_body:
             if has_ret:
@@ -2063,6 +2165,8 @@ def resolve_tries(lines):
 
 
 def translate(src, cfg, calls, consts, structs):
+    for mk, mv in cfg.get("macro_subst", {}).items():
+        src = src.replace(mk, mv)                                 # the instance of a `macro_rules!` body at one type
     params_txt, ret_txt, body_txt = find_fn(src, cfg.get("impl"), cfg["fn"])
     for pat, repl in cfg.get("source_subst", []):
         # a part of the body outside the translated subset (floating point) is replaced by a NAMED parameter; the pattern
